@@ -6,6 +6,41 @@ import os
 HERE = os.path.dirname(os.path.dirname(os.path.abspath(__file__)))
 
 CHECKS = {
+    'C09': dict(
+        engine='value-gen', category='exploration', design='4/C09',
+        technique='round-trip and re-conversion monitors on every pyvizier<->proto converter over generated values + through-service read-back',
+        text=('~30k generated values per quick run over all converter pairs (StudyConfig incl. conditional depth 1..4, '
+              'ProblemStatement, Trial, TrialSuggestion, Measurement, MetadataDelta, Suggest/EarlyStop request+decision): '
+              'from_proto(to_proto(x)) == x under the stated equivalence and to_proto(from_proto(to_proto(x))) byte-identical; '
+              'a slice is written through CreateStudy/CreateTrial/CompleteTrial and read back.'),
+        note='Equivalence masks only the four documented non-transmitted fields; times to 1 microsecond; metrics compared as name-keyed maps.'),
+    'C11': dict(
+        engine='value-gen', category='exploration', design='4/C11',
+        technique='brute-force definitional Pareto oracle vs every Pareto routine and study-level optimal-trial query on generated point sets / histories',
+        text=('14 point-set classes (lattices forcing ties/duplicates, +-inf, chains, antichains, float64-only distinctions) x naive, '
+              'fast (5 thresholds x 2 bases), JAX, is_frontier/get_frontier (5 shard counts), is_pareto_optimal_against, pareto_rank '
+              '(xla, nsga2); study histories of 8 trial kinds through ListOptimalTrials (RAM+SQL), clients.optimal_trials, GetBestTrials.'),
+        note='JAX routines only see float32-exact values; NaN rows in raw point sets carry no verdict (outside the quantifier); safety-metric studies accept five readings.'),
+    'C15': dict(
+        engine='value-gen', category='exploration', design='4/C15',
+        technique='round-trip / unit-interval / one-hot / decode-into-space monitors on all trial<->array converters over spaces x option tuples x points x arbitrary arrays',
+        text=('96+48 option tuples of the Default/TrialToArray converters, padded converters (3x3 schedules), model-input converter, '
+              'ProblemAndTrialsScaler, feature mapper, label converters; oracles computed from the plain space description '
+              '(vv.gen.member for decode-into-space with clipping on).'),
+        note='Exactness demanded only where the dtype can represent the value; DOUBLE tolerance 8*eps*max(|lo|,|hi|) (relative for LOG, reflected for REVERSE_LOG).'),
+    'C16': dict(
+        engine='value-gen', category='exploration', design='4/C16',
+        technique='independent membership oracle / validity predicate / recursive conditional walk vs contains, builders and SequentialParameterBuilder',
+        text=('16 assignment classes vs SearchSpace.contains and ParameterConfig.contains; builder accept/reject + normalisation table '
+              'over 8 builders; dfs/bfs walks on conditional trees of depth <=3; clients.Study.add_trial refusal iff non-member.'),
+        note='A non-member refused by any exception counts as refused; conditional contains must raise NotImplementedError.'),
+    'C17': dict(
+        engine='value-gen', category='exploration', design='4/C17',
+        technique='declared-type oracle on trial_parameters / clients.Trial.parameters over generated typed spaces and trials on RAM, SQLite and gRPC',
+        text=('bool / auto-cast discrete / float discrete / double / categorical / integer leaves, indexed families in shuffled order, '
+              'conditional children under 1-3 parent values, depth <=3; value equality + exact external type + index order + active set + '
+              'rejection of unknown/inactive parameters.'),
+        note='INTEGER parameters declare no external type: only the value is compared there.'),
     'C01': dict(
         engine='rpc-model', category='exploration', design='4/C01',
         technique='generated RPC programs on the real servicer vs sequential reference model + datastore write monitor',
